@@ -121,6 +121,12 @@ pub fn apply_reader_masks(expected: &mut CClass, obs: &mut Obs) {
 }
 
 pub fn read_and_project(bytes: &[u8]) -> Result<CClass, String> {
+	// history: reads that fail (the same file cut short at two places) must leave nothing behind that shows in the next read
+	if bytes.len() > 24 {
+		for cut in [bytes.len() * 2 / 3, bytes.len() - 1] {
+			let _ = crate::engine::no_panic(|| duke::read_class(&mut Cursor::new(&bytes[..cut])).is_ok());
+		}
+	}
 	let tree = duke::read_class(&mut Cursor::new(bytes)).map_err(|e| format!("duke::read_class rejected a well-formed class file: {e:#}"))?;
 	let p = project(&tree).map_err(|e| format!("the tree delivered by the reader is inconsistent: {e}"))?;
 	// a source that hands out only a few bytes per `read` call must give the same class
